@@ -33,7 +33,9 @@ structure Tracks (hl hd : Huff) (minL minD : Nat) (c : Cutter) (cp : Option (Nat
       Reach hl hd minL minD c.bits.bytes c.bits.pos out q o ∧ c.bits.pos < q ∧
       r.1.decodedLen + (out.size : Int) = d0 + (o.size : Int) ∧ q + c.endCodeNBits ≤ 8 * c.maxEncodedLen
   /-- the only error on a valid block is errInternalNoProgress (an empty block beyond the budget) -/
-  err : ∀ e, r.2.2 = some (some e) → e = .noProgress
+  err : ∀ e, r.2.2 = some (some e) → e = .noProgress ∧ r.1.decodedLen = c.decodedLen
+  /-- … and it cannot happen once a checkpoint exists -/
+  noerr : cp ≠ none → ∀ e, r.2.2 ≠ some (some e)
 
 theorem BlockCtx.transport {c c' : Cutter} {ll dl : Array Nat} {hl hd : Huff} (h : BlockCtx c ll dl hl hd)
     (h1 : c'.lHuff = c.lHuff) (h2 : c'.dHuff = c.dHuff) : BlockCtx c' ll dl hl hd :=
@@ -42,16 +44,17 @@ theorem BlockCtx.transport {c c' : Cutter} {ll dl : Array Nat} {hl hd : Huff} (h
 /-- **The symbol loop of `doHuffman` tracks the spec decoder.** -/
 theorem huffLoop_tracks (hl hd : Huff) (minL minD lo : Nat) (ll dl : Array Nat) :
     ∀ (fuelS fuelC : Nat) (c : Cutter) (cp : Option (Nat × Nat)) (d0 : Int) (out : Bytes) (pE : Nat) (outE : Bytes),
-    c.OK → BlockCtx c ll dl hl hd → c.decodedLen = d0 →
+    c.OK → BlockCtx c ll dl hl hd → c.decodedLen = d0 → c.endCodeNBits = ll.getD 256 0 →
+    (cp ≠ none → c.bits.pos + c.endCodeNBits ≤ 8 * c.maxEncodedLen) →
     huffBlock hl hd minL minD c.bits.bytes none lo fuelS c.bits.pos out = .next pE outE →
     0 ≤ d0 → d0 + (outE.size : Int) - (out.size : Int) < 2147483648 →
     8 * c.bits.bytes.size + 1 ≤ fuelC + c.bits.pos →
     Tracks hl hd minL minD c cp d0 out pE outE (Cutter.huffLoop fuelC c cp d0) := by
   intro fuelS
   induction fuelS with
-  | zero => intro fuelC c cp d0 out pE outE _ _ _ h; simp [huffBlock] at h
+  | zero => intro fuelC c cp d0 out pE outE _ _ _ _ _ h; simp [huffBlock] at h
   | succ fuelS ih =>
-    intro fuelC c cp d0 out pE outE hc ctx hcd hspec hd0 hD hf
+    intro fuelC c cp d0 out pE outE hc ctx hcd hecn hbud hspec hd0 hD hf
     have hpl := Inv.pos_le hc.inv
     obtain ⟨fC, rfl⟩ : ∃ f, fuelC = f + 1 := ⟨fuelC - 1, by omega⟩
     rw [huffBlock_succ] at hspec
@@ -63,7 +66,7 @@ theorem huffLoop_tracks (hl hd : Huff) (minL minD lo : Nat) (ll dl : Array Nat) 
       rw [ht] at hspec htc
       simp only [] at hspec
       obtain ⟨rfl, rfl⟩ := BlockResult.next.inj hspec
-      obtain ⟨b1, e1, i1, q1, y1, _⟩ := htc
+      obtain ⟨b1, e1, i1, q1, y1, _, hlenE⟩ := htc
       simp only [e1]
       have n0 : ¬ ((256 : Int) < 0) := by omega
       simp only [n0, if_false]
@@ -71,14 +74,17 @@ theorem huffLoop_tracks (hl hd : Huff) (minL minD lo : Nat) (ll dl : Array Nat) 
       have n1 : ¬ ((256 : Int) < 256) := by omega
       have n2 : ¬ ((256 : Int) > 256) := by omega
       simp only [n1, n2, if_false]
+      have hposb1 : b1.pos = 8 * b1.index - b1.nBits := rfl
       by_cases hchk : 8 * b1.index - b1.nBits > 8 * c.maxEncodedLen
       · simp only [hchk, if_true]
-        exact ⟨y1, by intro h; simp at h, by intro h; simp at h, by intro e h; simp at h; exact h.symm⟩
+        refine ⟨y1, by intro h; simp at h, by intro h; simp at h, by intro e h; simp at h; exact ⟨h.symm, rfl⟩, ?_⟩
+        intro hcp
+        have := hbud hcp
+        omega
       · simp only [hchk, if_false]
-        refine ⟨y1, ?_, by intro h; simp at h, by intro e h; simp at h⟩
+        refine ⟨y1, ?_, by intro h; simp at h, by intro e h; simp at h, by intro _ e h; simp at h⟩
         intro _
         refine ⟨q1, by simp [hcd], ?_⟩
-        have : b1.pos = 8 * b1.index - b1.nBits := rfl
         omega
     | lit b p1 =>
       rw [ht] at hspec htc
@@ -95,7 +101,7 @@ theorem huffLoop_tracks (hl hd : Huff) (minL minD lo : Nat) (ll dl : Array Nat) 
       simp only [nd, if_false]
       split
       · -- budget exceeded: break with the old checkpoint
-        exact ⟨y1, by intro h; simp at h, fun _ => Or.inl ⟨rfl, rfl⟩, by intro e h; simp at h⟩
+        exact ⟨y1, by intro h; simp at h, fun _ => Or.inl ⟨rfl, rfl⟩, by intro e h; simp at h, by intro _ e h; simp at h⟩
       · rename_i hbud
         have hc1 : ({ c with bits := b1, decodedLen := d0 + 1 } : Cutter).OK :=
           ⟨i1, by show c.maxEncodedLen ≤ b1.bytes.size; rw [y1]; exact hc.max, hc.l, hc.d⟩
@@ -105,10 +111,15 @@ theorem huffLoop_tracks (hl hd : Huff) (minL minD lo : Nat) (ll dl : Array Nat) 
           rw [y1, q1]; exact hspec
         have hpush : (out.push b).size = out.size + 1 := by simp
         have := ih fC { c with bits := b1, decodedLen := d0 + 1 } (some (b1.index, b1.nBits)) (d0 + 1) (out.push b)
-          pE outE hc1 (ctx.transport rfl rfl) rfl hspec' (by omega) (by rw [hpush]; omega)
+          pE outE hc1 (ctx.transport rfl rfl) rfl hecn
+          (by intro _; show b1.pos + c.endCodeNBits ≤ 8 * c.maxEncodedLen
+              have : b1.pos = 8 * b1.index - b1.nBits := rfl
+              omega)
+          hspec' (by omega) (by rw [hpush]; omega)
           (by show 8 * b1.bytes.size + 1 ≤ fC + b1.pos; rw [y1]; omega)
-        obtain ⟨t1, t2, t3, t4⟩ := this
-        refine ⟨t1.trans y1, ?_, ?_, t4⟩
+        obtain ⟨t1, t2, t3, t4, t5⟩ := this
+        have hnoerr := t5 (by simp)
+        refine ⟨t1.trans y1, ?_, ?_, fun e h => absurd h (hnoerr e), fun _ e => hnoerr e⟩
         · intro h
           obtain ⟨a1, a2, a3⟩ := t2 h
           exact ⟨a1, by rw [hpush] at a2; omega, a3⟩
@@ -144,7 +155,7 @@ theorem huffLoop_tracks (hl hd : Huff) (minL minD lo : Nat) (ll dl : Array Nat) 
       have nd : ¬ (d0 + (len : Int) < 0) := by omega
       simp only [nd, if_false]
       split
-      · exact ⟨y3, by intro h; simp at h, fun _ => Or.inl ⟨rfl, rfl⟩, by intro e h; simp at h⟩
+      · exact ⟨y3, by intro h; simp at h, fun _ => Or.inl ⟨rfl, rfl⟩, by intro e h; simp at h, by intro _ e h; simp at h⟩
       · rename_i hbud
         have hc1 : ({ c with bits := b3, decodedLen := d0 + (len : Int) } : Cutter).OK :=
           ⟨i3, by show c.maxEncodedLen ≤ b3.bytes.size; rw [y3]; exact hc.max, hc.l, hc.d⟩
@@ -153,10 +164,15 @@ theorem huffLoop_tracks (hl hd : Huff) (minL minD lo : Nat) (ll dl : Array Nat) 
           show huffBlock hl hd minL minD b3.bytes none lo fuelS b3.pos (copyMatch out dist len) = .next pE outE
           rw [y3, q3]; exact hspec
         have := ih fC { c with bits := b3, decodedLen := d0 + (len : Int) } (some (b3.index, b3.nBits)) (d0 + (len : Int))
-          (copyMatch out dist len) pE outE hc1 (ctx.transport rfl rfl) rfl hspec' (by omega) (by rw [hpush]; omega)
+          (copyMatch out dist len) pE outE hc1 (ctx.transport rfl rfl) rfl hecn
+          (by intro _; show b3.pos + c.endCodeNBits ≤ 8 * c.maxEncodedLen
+              have : b3.pos = 8 * b3.index - b3.nBits := rfl
+              omega)
+          hspec' (by omega) (by rw [hpush]; omega)
           (by show 8 * b3.bytes.size + 1 ≤ fC + b3.pos; rw [y3]; omega)
-        obtain ⟨t1, t2, t3, t4⟩ := this
-        refine ⟨t1.trans y3, ?_, ?_, t4⟩
+        obtain ⟨t1, t2, t3, t4, t5⟩ := this
+        have hnoerr := t5 (by simp)
+        refine ⟨t1.trans y3, ?_, ?_, fun e h => absurd h (hnoerr e), fun _ e => hnoerr e⟩
         · intro h
           obtain ⟨a1, a2, a3⟩ := t2 h
           exact ⟨a1, by rw [hpush] at a2; omega, a3⟩
